@@ -316,7 +316,7 @@ func VerifyHashed(pubx, puby, e, r, s []byte) (bool, error) {
 
 	// done sanity check
 	var tBytes []byte
-	tBytes = t.Bytes()
+	tBytes = ensure32Bytes(&t)
 
 	result, err = internal.ScalarMixedMult_Unsafe(s, pub, tBytes)
 	if err != nil {
